@@ -1,6 +1,7 @@
 """C19 C API: handle typestate and wiring"""
 import ecount
 import effi
+import edddmp
 import elin
 import eunits
 
@@ -33,6 +34,9 @@ def run(ctx):
     ctx.floor("E-FFI.siblings", "groups of sibling C functions, conversions and constants compared", ns, 78)
     ctx.explain("E-FFI.status: C functions reporting success as bool return false only on the error side and true only on the success "
                 "side of handle_err_or_init, which itself maps Ok to Some and Err to None.")
+    ctx.explain("E-DDDMP.callers: every caller of dddmp::import in the workspace (CLI, C and Python bindings) that derives the variable "
+                "mapping from the header reads support_var_order() (support variables by level position), never support_vars().")
+    edddmp.check_import_callers(ctx, F)
     nst = effi.check_status_results(ctx, F)
     ctx.floor("E-FFI.status", "status-returning functions and the helper", nst, 2)
     ctx.explain("E-FFI.empty: the EMPTY / INVALID constants the C interface hands out for 'no result' have zero length / "
